@@ -49,11 +49,19 @@ def run(ctx, rep):
     from ..report import Relay
     from . import c04
     c04._s4(ctx, Relay(rep, {"S4": "P7"}))
+    rep.rule("P9", "the projection factories the optimisers are configured with (func_calc_proj_physical / _with_var) hand out the closure of "
+                   "the physical projection on every path", floor=2)
+    c05._check_factory_returns(ctx, rep, "P9")
     _p1(ctx, rep)
     _p2(ctx, rep)
     for name, qn in ALGOS.items():
         _p3(ctx, rep, name, ix.func(qn))
         _p4(ctx, rep, name, ix.func(qn))
+    rep.rule("P8", "the equality step of the projection the estimators iterate with writes the constants its parametrisation implies over the whole constrained part (rule I5 of C03 on the "
+                   "equality-projection bodies)", floor=4)
+    from ..report import Relay as _Relay
+    from . import c03 as _c03
+    _c03._check_constants(ctx, _Relay(rep, {"I5": "P8"}, keep=lambda f_, con_: "calc_proj_eq_constraint" in (getattr(f_, "qualname", None) or str(f_))))
 
 
 def _p1(ctx, rep):
